@@ -247,13 +247,20 @@ SKEL = (r"(?P<gates>(?:if [^{}]+ \{ return; \} )*)"
         r"if let Some\(context\) = exception_details\.context\.as_deref\(\) \{ "
         r"for reg in &exception_details\.instruction_registers \{ "
         r"if let Some\(address\) = context\.get_register\(reg\) \{ "
-        r"info\.possible_bit_flips\.extend\(bitflip::try_bit_flips\( address, Some\(reg\), bit_range, Some\(context\), &self\.memory_info, memory_op, \)\); "
+        r"info\.possible_bit_flips\.extend\(bitflip::try_bit_flips\( address, Some\(reg\), (?P<regbr>bit_range|BitRange::\w+), Some\(context\), &self\.memory_info, memory_op, \)\); "
         r"\} \} \} \}")
 m = re.fullmatch(SKEL, cb)
 if not m:
     die("check_for_bitflips: the body no longer has the recognised skeleton (gates; adjusted-address selection; address pass; "
         "register pass nested in the address block, under the context, with the same bit range / operation / map); "
         "coq/C19 must be re-read against it:\n" + cb)
+regbr = m.group("regbr")
+if regbr == "bit_range":
+    regpass_br = "br"
+else:
+    if regbr.split("::")[1] not in ("All", "Amd64Canononical", "Amd64NonCanonical"):
+        die("check_for_bitflips: unknown BitRange in the register pass: " + regbr)
+    regpass_br = "GBr" + regbr.split("::")[1]
 gates = [cond_to_coq(g, "check_for_bitflips gate") for g in re.findall(r"if ([^{}]+) \{ return; \}", m.group("gates"))]
 
 
@@ -562,6 +569,8 @@ L.append("  | GAdjNone => %s" % arm_none)
 L.append("  end.")
 L.append("(* the body: gates; selection; address pass; register pass (only inside the address block, only with a context,")
 L.append("   same bit range, operation and memory map: these are closed over in [try]) *)")
+L.append("(* the bit range the register pass searches: the address pass's (br) or a constant *)")
+L.append("Definition g_regpass_br (br : gbr) : gbr := %s." % regpass_br)
 L.append("Section Check.")
 L.append("  Context {flip : Type}.")
 L.append("  Variable try : Z -> option Z -> gbr -> list flip.        (* address, source register, bit range *)")
@@ -570,7 +579,7 @@ L.append("    if g_gate c address then [] else")
 L.append("    match g_select c address adj with")
 L.append("    | Some (a, br) =>")
 L.append("        try a None br ++")
-L.append("        (if has_context then flat_map (fun rv => try (snd rv) (Some (fst rv)) br) iregs else [])")
+L.append("        (if has_context then flat_map (fun rv => try (snd rv) (Some (fst rv)) (g_regpass_br br)) iregs else [])")
 L.append("    | None => []")
 L.append("    end.")
 L.append("End Check.")
